@@ -16,6 +16,11 @@ def ops_jobs(run: Run, prop: str, quick: bool, n_quick: int = 200, n_thorough: i
         j = run.job(d, want=["manifest"], plan={"fn": "ops", "args": {"seed": seed(), "calls_per_op": 3, "import": True}}, cfg={})
         info[j["id"]] = {"label": label, "cfg": {}, "features": {"sharing", label}, "deterministic_valid": True}
         jobs.append(j)
+    for label, d, ovr in docs.override_docs():
+        cfg = {"content_type_overrides": ovr}
+        j = run.job(d, want=["manifest"], plan={"fn": "ops", "args": {"seed": seed(), "calls_per_op": 6, "import": True, "overrides": ovr}}, cfg=cfg)
+        info[j["id"]] = {"label": label, "cfg": cfg, "features": {"content_type_overrides", label}, "deterministic_valid": True}
+        jobs.append(j)
     n = n_quick if quick else n_thorough
     for i in range(n):
         d, feats = docs.random_doc((prop, seed(), i), hostile=[0, 0, 0.3][i % 3], n_ops=None if i % 2 else 6)
